@@ -445,4 +445,46 @@ pub fn run(ctx: &mut Ctx) {
         }
         rep.distinct(&src, true);
     });
+
+    // ---- errors inside constructs that are scanned by a nested tokenizer (f-strings), in multi-line layouts ----------
+    // The location of an error inside `f'..{expr}..'` has to be translated from the embedded text to the whole
+    // source: short lines above, the f-string at any column, the error at any offset, f-strings inside f-strings.
+    const BROKEN: [&str; 14] = ["a +", "x.y(", "(", "1 1", "[", "a ? b", "a ? b :", ")", "a.", "1 +* 2", "a[", "{'k':", "match a {", "!"];
+    let nf = ctx.n(40_000, 400_000);
+    ctx.stage("embedded-error-locations", nf, true, |_idx, rng, rep| {
+        let nlines_above = rng.below(5);
+        let mut src = String::new();
+        // an enclosing list / call / map so that the layout is legal CEL up to the f-string
+        let opener = *rng.pick(&["[", "size([", "{'k': [", "(", ""]);
+        src.push_str(opener);
+        for _ in 0..nlines_above {
+            // short lines: shorter than the column the f-string will stand in
+            src.push_str(*rng.pick(&["\n", "\n1,", "\n 'a',", "\n\t2 ,", "\n  [] ,"]));
+        }
+        if rng.chance(3, 4) {
+            src.push('\n');
+        }
+        for _ in 0..rng.below(30) {
+            src.push(' ');
+        }
+        let q = *rng.pick(&['\'', '"']);
+        let inner_q = if q == '\'' { '"' } else { '\'' };
+        let broken = *rng.pick(&BROKEN);
+        let lead: String = (0..rng.below(12)).map(|_| *rng.pick(&['x', ' ', 'é', '-'])).collect();
+        let body = match rng.below(4) {
+            0 => format!("{}{{{}}}", lead, broken),
+            1 => format!("{}{{a}}{{{}}}tail", lead, broken),
+            // an f-string inside the embedded expression of an f-string
+            2 => format!("{}{{f{iq}{{{}}}{iq}}}", lead, broken, iq = inner_q),
+            _ => format!("{}{{ {} }}", lead, broken),
+        };
+        src.push_str(&format!("f{q}{}{q}", body, q = q));
+        if rng.chance(1, 2) {
+            src.push_str(*rng.pick(&["\n]", "]", "\n\n", ", 1]", ")"]));
+        }
+        rep.count("embedded_error_sources");
+        check_error_loc(rep, &src);
+        rep.distinct(&src, true);
+        rep.sample(|| json!({"stage":"embedded-error-locations","source":mon::clip(&src, 160)}));
+    });
 }
